@@ -138,7 +138,8 @@ def fcn_cases(tier, seed):
             mks.append(m2.market_id)
         # (normal margin: quote = expected price + 2 x 10, always above the market price when the agent should SELL)
         ag = FCNAgent(agent_id=7, prng=StubGauss2(k, 2) if normal else StubGauss(k), simulator=sim, name="fcn")
-        ag.setup(settings={"cashAmount": 1000, "assetVolume": 10, "fundamentalWeight": wF * ws, "chartWeight": wC * ws, "noiseWeight": wN * ws,
+        # (the strategy does not look at the agent's own cash or position: an agent without either still quotes)
+        ag.setup(settings={"cashAmount": 1 if gi % 7 in (3, 6) else 1000, "assetVolume": 0 if gi % 7 in (3, 5) else 10, "fundamentalWeight": wF * ws, "chartWeight": wC * ws, "noiseWeight": wN * ws,
                            "noiseScale": LN2, "timeWindowSize": W, "orderMargin": 10.0 if normal else margin,
                            "marginType": "normal" if normal else "fixed",
                            "meanReversionTime": tr_cfg}, accessible_markets_ids=list(mks))
